@@ -81,32 +81,31 @@ def register(db):
     db.add(Contract(f"{NS}:is_uri", trusted=True, params={}, returns="bool", raises={},
                     call_ensures=["result == uf('is_uri', 'bool', uri)", "implies(uri is None or uri == '', result == False)"],
                     note="assumed: is_uri is a function of its argument, False for empty"))
-    # one or more characters that are neither (python) whitespace nor ':' '{' '}'
-    TOK = ("[\\x21-\\x39\\x3b-\\x7a\\x7c\\x7e-\\x84\\x86-\\x9f\\xa1-\\u167f\\u1681-\\u1fff\\u200b-\\u2027"
-           "\\u202a-\\u202e\\u2030-\\u205e\\u2060-\\u2fff\\u3001-\\uffff]+")
+    # p, l: any texts such that "p:l" is already stripped, p has no ':' and does not start with '{'
+    WS = "[ \\t\\n\\r]*"
+    TOKENS = ["len(p) > 0", "len(l) > 0", "':' not in p", "p[0:1] != '{'", "py_strip(p + ':' + l) == p + ':' + l"]
     db.add(Contract(
         f"{CONV}:QNameConverter.resolve", variant="prefixed",
         params={"value": "str", "ns_map": NSMAP},
         ghost={"w1": "str", "p": "str", "l": "str", "w2": "str"},
-        requires=["matches(w1, '[ \\t\\n\\r]*')", "matches(w2, '[ \\t\\n\\r]*')", f"matches(p, '{TOK}')", f"matches(l, '{TOK}')",
-                  "value == w1 + p + ':' + l + w2"],
-        hints=[f"strip_padded(value, w1, '[ \\t\\n\\r]*', w2, p, '{TOK}', ':', None, l, '{TOK}')", f"index_at(p, '{TOK}', ':', l)"],
+        requires=[f"matches(w1, '{WS}')", f"matches(w2, '{WS}')", "value == w1 + p + ':' + l + w2"] + TOKENS,
+        hints=[f"strip_core(value, w1, '{WS}', w2, p + ':' + l)", "cut_at(p, ':', l)"],
         ensures=[("prefix-bound", "p in ns_map and ns_map[p] != ''"),
                  ("expanded-name", "implies(p in ns_map, result == (ns_map[p], l))"),
-                 ("local-is-ncname", "uf('is_ncname', 'bool', l)")],
-        raises={"ConverterError": "not (p in ns_map and ns_map[p] != '') or not uf('is_ncname', 'bool', l)"},
+                 ("local-is-ncname", "uf('is_ncname', 'bool', l) and ' ' not in l")],
+        raises={"ConverterError": "not (p in ns_map and ns_map[p] != '') or not uf('is_ncname', 'bool', l) or ' ' in l"},
         properties=P + ["C05", "C15"],
     ))
     db.add(Contract(
         f"{CONV}:QNameConverter.resolve", variant="unprefixed",
         params={"value": "str", "ns_map": NSMAP},
         ghost={"w1": "str", "l": "str", "w2": "str"},
-        requires=["matches(w1, '[ \\t\\n\\r]*')", "matches(w2, '[ \\t\\n\\r]*')", f"matches(l, '{TOK}')",
-                  "value == w1 + l + w2"],
-        hints=[f"strip_padded(value, w1, '[ \\t\\n\\r]*', w2, l, '{TOK}')"],
+        requires=[f"matches(w1, '{WS}')", f"matches(w2, '{WS}')", "value == w1 + l + w2",
+                  "len(l) > 0", "':' not in l", "l[0:1] != '{'", "py_strip(l) == l"],
+        hints=[f"strip_core(value, w1, '{WS}', w2, l)"],
         ensures=[("default-namespace-applies", "result == (ite(None in ns_map, ns_map[None], None), l)"),
-                 ("local-is-ncname", "uf('is_ncname', 'bool', l)")],
-        raises={"ConverterError": "not uf('is_ncname', 'bool', l)"},
+                 ("local-is-ncname", "uf('is_ncname', 'bool', l) and ' ' not in l")],
+        raises={"ConverterError": "not uf('is_ncname', 'bool', l) or ' ' in l"},
         properties=P + ["C05", "C15"],
     ))
     db.add(Contract(
@@ -119,11 +118,11 @@ def register(db):
     db.add(Contract(
         "verif_harness:resolve_under_prefix_renaming",
         params={"w1": "str", "p": "str", "p2": "str", "l": "str", "w2": "str", "m": NSMAP, "m2": NSMAP},
-        requires=["matches(w1, '[ \\t\\n\\r]*')", "matches(w2, '[ \\t\\n\\r]*')", f"matches(p, '{TOK}')", f"matches(p2, '{TOK}')",
-                  f"matches(l, '{TOK}')", "p in m and p2 in m2 and m[p] == m2[p2]"],
-        hints=[f"strip_padded(w1 + p + ':' + l + w2, w1, '[ \\t\\n\\r]*', w2, p, '{TOK}', ':', None, l, '{TOK}')",
-               f"strip_padded(w1 + p2 + ':' + l + w2, w1, '[ \\t\\n\\r]*', w2, p2, '{TOK}', ':', None, l, '{TOK}')",
-               f"index_at(p, '{TOK}', ':', l)", f"index_at(p2, '{TOK}', ':', l)"],
+        requires=[f"matches(w1, '{WS}')", f"matches(w2, '{WS}')"] + TOKENS
+        + ["len(p2) > 0", "':' not in p2", "p2[0:1] != '{'", "py_strip(p2 + ':' + l) == p2 + ':' + l",
+           "p in m and p2 in m2 and m[p] == m2[p2]"],
+        hints=[f"strip_core(w1 + p + ':' + l + w2, w1, '{WS}', w2, p + ':' + l)", "cut_at(p, ':', l)",
+               f"strip_core(w1 + p2 + ':' + l + w2, w1, '{WS}', w2, p2 + ':' + l)", "cut_at(p2, ':', l)"],
         ensures=[("same-expanded-name", "result[0] == result[1]")],
         raises={"ConverterError": True},
         properties=P,
@@ -135,10 +134,9 @@ def register(db):
         f"{PU}.xsi_type", variant="prefixed",
         params={"attrs": "dict[str,str]", "ns_map": NSMAP},
         ghost={"w1": "str", "p": "str", "l": "str", "w2": "str"},
-        requires=[f"'{XSI_TYPE}' in attrs", "matches(w1, '[ \\t\\n\\r]*')", "matches(w2, '[ \\t\\n\\r]*')",
-                  f"matches(p, '{TOK}')", f"matches(l, '{TOK}')", f"attrs['{XSI_TYPE}'] == w1 + p + ':' + l + w2"],
-        hints=[f"strip_padded(w1 + p + ':' + l + w2, w1, '[ \\t\\n\\r]*', w2, p, '{TOK}', ':', None, l, '{TOK}')",
-               f"index_at(p, '{TOK}', ':', l)"],
+        requires=[f"'{XSI_TYPE}' in attrs", f"matches(w1, '{WS}')", f"matches(w2, '{WS}')",
+                  f"attrs['{XSI_TYPE}'] == w1 + p + ':' + l + w2"] + TOKENS,
+        hints=[f"strip_core(w1 + p + ':' + l + w2, w1, '{WS}', w2, p + ':' + l)", "cut_at(p, ':', l)"],
         ensures=[("expanded-type-name", "implies(p in ns_map, result == clark_build(ns_map[p], l))")],
         raises={"ConverterError": True},
         properties=P + ["C15"],
